@@ -160,7 +160,10 @@ def ready(ctx, facts):
         names = flow.field_names_in(a0) | flow.field_names_in(a1)
         rem = a1 if "records_per_batch" in flow.field_names_in(a0) else a0
         shape = "records_per_batch" in names and "checked_sub" in str(rem) and "TotalRecords::count" in str(rem) and "first_batch" in str(rem)
-    ctx.ob("GUARD-ready", "comparison-is-eq", e[1] == "Eq", f"readiness test is {e[1]}(pending_count, total_count)" + ("" if e[1] == "Eq" else ": a batch can be released before / without all of its records having asked"), site_of(b, sw))
+    # `==` with Yes on its true edge, or `!=` with an early Ready::No: the same test; edges are named by what they mean
+    if ed is not None and e[1] == "Ne":
+        ed = (ed[1], ed[0])
+    ctx.ob("GUARD-ready", "comparison-is-eq", e[1] in ("Eq", "Ne"), f"readiness test is {e[1]}(pending_count, total_count)" + ("" if e[1] in ("Eq", "Ne") else ": a batch can be released before / without all of its records having asked"), site_of(b, sw))
     ctx.ob("GUARD-ready", "total-count-shape", shape, "total_count = min(records_per_batch, total_records - first_record_in_batch)" if shape else f"total_count is {str(other)[:200]}: the final partial batch does not close at the declared total", site_of(b, sw))
     for k, (bb, i, s) in enumerate(yes):
         ok = ed is not None and flow.dominates(dom, ed[1], bb) and not flow.dominates(dom, ed[0], bb)
@@ -198,6 +201,17 @@ def count_rule(ctx, facts, dom):
         dup = _switch_on(wb, lambda e: "Index::index" in str(e) and "pending_records" in flow.field_names_in(e))
         ok_lt = bool(lt) and lt[0][2] is not None and flow.dominates(dom, lt[0][2][1], bb) and _diverges(wb, lt[0][2][0])
         ok_dup = bool(dup) and dup[0][2] is not None and _diverges(wb, dup[0][2][1])
+        if not ok_dup:
+            # the bit may be read with `pending_records.get(off).is_some_and(|b| *b)` and asserted: some test whose
+            # condition is derived from reading pending_records has one edge that only panics and another on which the
+            # count is updated
+            dup2 = _switch_on(wb, lambda e: "pending_records" in flow.field_names_in(e) and re.search(r"Index::index|::get'|is_some_and|Option::<T>::(unwrap_or|map_or|is_some)", str(e)) is not None)
+            for sw_, e_, ed_ in dup2:
+                if ed_ is None:
+                    continue
+                for die, live in ((ed_[0], ed_[1]), (ed_[1], ed_[0])):
+                    if _diverges(wb, die) and bb in wb.reachable(live) and flow.dominates(dom, sw_, bb):
+                        ok_dup = True
         ctx.ob("COUNT", f"write#{n}:after-offset-check", ok_lt, "record offset < total_count is asserted first" if ok_lt else "the record-beyond-total check does not guard the count update (misuse silently accepted)", site_of(wb, bb, idx))
         ctx.ob("COUNT", f"write#{n}:after-duplicate-check", ok_dup, "a second validate_record for the same record panics" if ok_dup else "validating a record twice is not rejected", site_of(wb, bb, idx))
         sets = flow.find_calls(wb, re.compile(r"BitSlice::<T, O>::set$"))
@@ -541,6 +555,12 @@ def callers(ctx, facts):
         for x in (e[2], e[3]):
             if x[0] == "const":
                 consts.add(x[1])
+    if not consts:
+        # `matches!(records_per_batch, 1 | usize::MAX)`: a value switch on records_per_batch itself
+        for bb_ in sorted(b.live_blocks()):
+            t_ = b.term(bb_)
+            if t_["k"] == "switch" and len(t_["ts"]) >= 2 and "records_per_batch" in str(flow.expr_of(b, t_["o"], max_depth=8)):
+                consts |= {int(v) for v, _ in t_["ts"]}
     ctx.ob("CALLERS", "active-work-forced", ok and consts == {1, (1 << 64) - 1}, "active_work = records_per_batch unless it is 1 or usize::MAX" if ok else f"active_work is not derived from records_per_batch (exceptions {sorted(consts)})", site_of(b))
 
 
